@@ -156,14 +156,17 @@ let mitm_of = function
   | "p3-altered" -> MP3Altered | "p3-broken" -> MP3Broken
   | s -> failwith ("bad mitm class " ^ s)
 
+let wop_of (s : string) : wop =
+  match s with
+  | "close" -> WClose | "expire" -> WExpire
+  | s when starts s "reopen" -> WReopen (ni (num_after s "reopen"))
+  | _ -> WNone
+
 let run_e (kv : string list) : string =
   let pwb = n (field kv "pwb") and pwa = n (field kv "pwa") in
   let cls = mitm_of (field kv "class") in
   let at = n (field kv "at") in
-  let w = match field kv "wop" with
-    | "close" -> WClose | "expire" -> WExpire
-    | s when starts s "reopen" -> WReopen (ni (num_after s "reopen"))
-    | _ -> WNone in
+  let w = wop_of (field kv "wop") in
   let (s0, _) = step init (Open (true, { vf_pw = pwb; vf_salt = ni 77; vf_saltlen = ni 32; vf_iters = ni 2000 }, ni 900)) in
   let (s, ok) = e2e_run s0 pwa cls at w in
   Printf.sprintf "a=%s %s" (if ok then "ok" else "fail") (obs_str (observe s))
@@ -201,8 +204,18 @@ let () =
               Buffer.add_string buf (Printf.sprintf "S %s %s\n" id (String.concat " " toks))
             end
         | "E" :: id :: kv ->
-            if spec then ignore (input_line stdin)
-            else Buffer.add_string buf (Printf.sprintf "E %s %s\n" id (run_e kv))
+            if spec then begin
+              (* implementation line: E <id> a=<res> <obs> *)
+              let impl = input_line stdin in
+              let t = Array.of_list (split_on ' ' impl) in
+              let a_ok = Array.length t > 2 && t.(2) = "a=ok" in
+              let o = if Array.length t > 3 then parse_obs t.(3) else obs0 in
+              let ok = e2e_holds (n (field kv "pwb")) (n (field kv "pwa")) (field kv "class" = "none")
+                         (wop_of (field kv "wop")) (n (field kv "at")) a_ok (ni (List.length o.o_sess)) in
+              let complete = Array.length t > 3 && (t.(2) = "a=ok" || t.(2) = "a=fail") in
+              Buffer.add_string buf (Printf.sprintf "E %s %s\n" id
+                (if not complete then "run-incomplete" else if ok then "ok" else "session-without-proof-or-window"))
+            end else Buffer.add_string buf (Printf.sprintf "E %s %s\n" id (run_e kv))
         | "K" :: id :: cls :: _ ->
             if spec then ignore (input_line stdin)
             else begin
